@@ -88,23 +88,14 @@ Ltac good_concrete := split; [|split]; [in_solve | in_solve | reflexivity].
 
 (* ---- groups ---- *)
 Lemma group_body_good L M en gs :
-  In en L -> good L M (flat_map (fun g => [ELabel g; EBlock; EGoto en false]) gs).
+  In en L -> good L M (group_body en gs).
 Proof.
-  intros Hen. induction gs as [|g r IH]; [apply good_nil|].
+  intros Hen. unfold group_body. induction gs as [|g r IH]; [apply good_nil|].
   cbn [flat_map]. apply good_app; [|exact IH]. good_concrete.
 Qed.
 
-Lemma group_body_defs en gs :
-  defs (flat_map (fun g => [ELabel g; EBlock; EGoto en false]) gs) = gs.
-Proof. induction gs as [|g r IH]; [reflexivity|]. cbn [flat_map]. rewrite defs_app, IH. reflexivity. Qed.
-
-Lemma or_group_good L M p n : good L M (or_group p n).
-Proof.
-  unfold or_group. cbv zeta. generalize (group_labels p n) as gs; intro gs. apply good_wrap.
-  - apply group_body_good. cbn. auto 10.
-  - rewrite group_body_defs. good_concrete.
-  - good_concrete.
-Qed.
+Lemma group_body_defs en gs : defs (group_body en gs) = gs.
+Proof. unfold group_body. induction gs as [|g r IH]; [reflexivity|]. cbn [flat_map]. rewrite defs_app, IH. reflexivity. Qed.
 
 Lemma and_group_good L M p n : good L M (and_group p n).
 Proof.
@@ -131,7 +122,103 @@ Ltac incl_solve :=
   let x := fresh "x" in let Hx := fresh "Hx" in
   intros x Hx; unfold defs, forks; cbn [flat_map app];
   repeat (progress (rewrite ?flat_map_app; cbn [flat_map app]));
-  rewrite ?in_app_iff; cbn in Hx |- *; rewrite ?in_app_iff; cbn; intuition (subst; auto 20).
+  rewrite ?in_app_iff; cbn in Hx |- *; repeat (progress (rewrite ?in_app_iff; cbn));
+  intuition (subst; auto 20).
+
+(* ---- starts / match_all / or-structures: self-contained blocks ---- *)
+Lemma start_atom_good L M a : good L M (start_atom a).
+Proof. destruct a; good_concrete. Qed.
+
+Lemma starts_good L M g : good L M (starts g).
+Proof.
+  unfold starts. induction g as [|a r IH]; [apply good_nil|].
+  cbn [flat_map]. apply good_app; [apply start_atom_good|exact IH].
+Qed.
+
+Lemma match_all_good L M p tag i k : good L M (match_all p tag i k).
+Proof. unfold match_all. destruct (k <=? 1)%nat; [good_concrete|apply and_group_good]. Qed.
+
+Lemma x_activate_good L M n : good L M (x_activate n).
+Proof. induction n as [|n IH]; [apply good_nil|]. cbn [x_activate]. apply good_app; [good_concrete|exact IH]. Qed.
+
+Lemma or_branches_good L M sc p bodies : forall i,
+  In (or_N sc p) L -> (forall b, In b bodies -> good L M b) -> good L M (or_branches sc p i bodies).
+Proof.
+  induction bodies as [|b r IH]; intros i HN Hb; [apply good_nil|].
+  cbn [or_branches]. apply good_cons; [good_concrete|].
+  apply good_app; [apply Hb; now left|].
+  apply good_cons; [|apply IH; [exact HN|intros; apply Hb; now right]].
+  split; [|split]; [|intros x []|reflexivity]. intros x [<-|[]]. now right.
+Qed.
+
+Lemma or_branches_labels sc p bodies : forall i,
+  incl (map (or_G sc p) (seq i (List.length bodies))) (defs (or_branches sc p i bodies)).
+Proof.
+  induction bodies as [|b r IH]; intros i; [intros x []|].
+  cbn [or_branches List.length seq map]. intros x [<-|Hx].
+  - rewrite defs_cons. apply in_or_app. left. cbn. auto.
+  - rewrite defs_cons, defs_app, defs_cons. apply in_or_app. right. apply in_or_app. right.
+    apply in_or_app. right. now apply IH.
+Qed.
+
+Lemma or_struct_good L M sc p bodies :
+  (forall b, In b bodies -> good [] [] b) -> good L M (or_struct sc p bodies).
+Proof.
+  intros Hb. unfold or_struct.
+  pose proof (or_branches_labels sc p bodies 0) as HG. revert HG.
+  assert (HB : good (or_F sc p :: or_N sc p :: map (or_G sc p) (seq 0 (List.length bodies)) ++ L) (or_K sc p :: M)
+                    (or_branches sc p 0 bodies)).
+  { apply or_branches_good; [right; now left|]. intros b Hin.
+    eapply good_mono; [| |apply Hb; exact Hin]; intros x []. }
+  revert HB. generalize (or_branches sc p 0 bodies) as BR.
+  generalize (map (or_G sc p) (seq 0 (List.length bodies))) as gls. intros gls BR HB HG.
+  apply (good_close (or_F sc p :: or_N sc p :: gls) [or_K sc p]).
+  - apply good_app; [destruct sc; good_concrete|]. apply good_app; [|apply good_app].
+    + split; [|split]; [|intros x []|reflexivity].
+      intros x Hx. cbn in Hx. rewrite app_nil_r in Hx. right. rewrite in_app_iff. left.
+      destruct Hx as [<-|Hx]; [now left|]. right; right. exact Hx.
+    + eapply good_mono; [| |exact HB]; [intros x Hx; rewrite in_app_iff; cbn in *; rewrite in_app_iff in Hx; tauto
+                                        |intros x Hx; rewrite in_app_iff; cbn in *; tauto].
+    + unfold or_tail. destruct sc; good_concrete.
+  - intros x Hx. rewrite !defs_app. rewrite !in_app_iff. destruct Hx as [<-|[<-|Hx]].
+    + right; right; right. unfold or_tail. destruct sc; cbn; auto.
+    + right; right; right. unfold or_tail. destruct sc; cbn; auto 10.
+    + right; right; left. now apply HG.
+  - intros x [<-|[]]. rewrite !forks_app, !in_app_iff. right; left. cbn. auto.
+Qed.
+
+Lemma mapi_from_in {A B} (f : nat -> A -> B) l : forall i y,
+  In y (mapi_from f i l) -> exists j x, y = f j x.
+Proof.
+  induction l as [|x r IH]; intros i y H; [contradiction|].
+  destruct H as [<-|H]; [eauto|eapply IH; eauto].
+Qed.
+
+Lemma x_match_good L M p ks : good L M (x_match p ks).
+Proof.
+  unfold x_match.
+  assert (H : good L M (or_struct false p (mapi_from (fun i k => match_all p 6 i k) 0 ks))).
+  { apply or_struct_good. intros b Hb. destruct (mapi_from_in _ _ _ _ Hb) as [j [k ->]]. apply match_all_good. }
+  destruct ks as [|k [|k2 r]]; [exact H|apply match_all_good|exact H].
+Qed.
+
+Lemma x_start_good L M p gs : good L M (x_start p gs).
+Proof.
+  unfold x_start.
+  assert (H : good L M (or_struct false p (map starts gs))).
+  { apply or_struct_good. intros b Hb. apply in_map_iff in Hb. destruct Hb as [g [<- _]]. apply starts_good. }
+  destruct gs as [|g [|g2 r]]; [exact H|apply starts_good|exact H].
+Qed.
+
+Lemma x_await_good L M p gs : good L M (x_await p gs).
+Proof.
+  unfold x_await.
+  assert (H : good L M (or_struct true p (mapi_from (fun i g => starts g ++ match_all p 7 i (List.length g)) 0 gs))).
+  { apply or_struct_good. intros b Hb. destruct (mapi_from_in _ _ _ _ Hb) as [j [g ->]].
+    apply good_app; [apply starts_good|apply match_all_good]. }
+  destruct gs as [|g [|g2 r]]; [exact H| |exact H].
+  apply good_app; [apply starts_good|apply match_all_good].
+Qed.
 
 (* ---- induction principle for the nested type ---- *)
 Section StmtInd.
@@ -144,10 +231,12 @@ Section StmtInd.
   Hypothesis HAbort : P SAbort.
   Hypothesis HIf : forall th el, Forall P th -> Forall P el -> P (SIf th el).
   Hypothesis HWhile : forall b, Forall P b -> P (SWhile b).
-  Hypothesis HOr : forall n, P (SMatchOr n).
-  Hypothesis HAnd : forall n, P (SMatchAnd n).
+  Hypothesis HMatch : forall ks, P (SMatch ks).
+  Hypothesis HStart : forall gs, P (SStart gs).
+  Hypothesis HAwait : forall gs, P (SAwait gs).
+  Hypothesis HActivate : forall n, P (SActivate n).
   Hypothesis HWhen : forall cases els,
-      Forall (Forall P) cases -> (forall el, els = Some el -> Forall P el) -> P (SWhen cases els).
+      Forall (fun c => Forall P (snd c)) cases -> (forall el, els = Some el -> Forall P el) -> P (SWhen cases els).
 
   Fixpoint stmt_ind' (s : stmt) : P s :=
     let fl := fix fl (ss : list stmt) : Forall P ss :=
@@ -160,14 +249,16 @@ Section StmtInd.
     | SReturn => HReturn | SAbort => HAbort
     | SIf th el => HIf th el (fl th) (fl el)
     | SWhile b => HWhile b (fl b)
-    | SMatchOr n => HOr n
-    | SMatchAnd n => HAnd n
+    | SMatch ks => HMatch ks
+    | SStart gs => HStart gs
+    | SAwait gs => HAwait gs
+    | SActivate n => HActivate n
     | SWhen cases els =>
         HWhen cases els
-          ((fix fc (cs : list (list stmt)) : Forall (Forall P) cs :=
+          ((fix fc (cs : list (list member * list stmt)) : Forall (fun c => Forall P (snd c)) cs :=
               match cs with
-              | [] => Forall_nil (Forall P)
-              | c :: r => Forall_cons c (fl c) (fc r)
+              | [] => Forall_nil _
+              | c :: r => Forall_cons c (fl (snd c)) (fc r)
               end) cases)
           (match els as o return (forall el, o = Some el -> Forall P el) with
            | None => fun el H => match H in (_ = y) return (match y with None => True | Some _ => Forall P el end) with eq_refl => I end
@@ -180,47 +271,58 @@ End StmtInd.
 Lemma xstmt_if cb p th el :
   xstmt cb p (SIf th el) =
   match el with
-  | [] => EGoto (p ^^ "D") true :: xlist cb (p ^^ "t") 0 th ++ [ELabel (p ^^ "D")]
-  | _ => EGoto (p ^^ "E") true :: xlist cb (p ^^ "t") 0 th
-         ++ [EGoto (p ^^ "D") false; ELabel (p ^^ "E")] ++ xlist cb (p ^^ "e") 0 el ++ [ELabel (p ^^ "D")]
+  | [] => EGoto (if_D p) true :: xlist cb p 0 0 th ++ [ELabel (if_D p)]
+  | _ => EGoto (if_E p) true :: xlist cb p 0 0 th
+         ++ [EGoto (if_D p) false; ELabel (if_E p)] ++ xlist cb p 1 0 el ++ [ELabel (if_D p)]
   end.
 Proof. reflexivity. Qed.
 
 Lemma xstmt_while cb p body :
   xstmt cb p (SWhile body) =
-  ELabel (p ^^ "B") :: EGoto (p ^^ "D") true
-    :: xlist (Some (p ^^ "B", p ^^ "D")) (p ^^ "b") 0 body ++ [EGoto (p ^^ "B") false; ELabel (p ^^ "D")].
+  ELabel (wh_B p) :: EGoto (wh_D p) true
+    :: xlist (Some (wh_B p, wh_D p)) p 2 0 body ++ [EGoto (wh_B p) false; ELabel (wh_D p)].
 Proof. reflexivity. Qed.
 
 Lemma xstmt_when cb p cases els :
   xstmt cb p (SWhen cases els) =
-  EBegin (p ^^ "S")
-    :: EFork (p ^^ "K") (map (fun i => casep p i ^^ "I") (seq 0 (List.length cases)))
+  EBegin (wn_S p)
+    :: EFork (wn_K p) (map (cs_I p) (seq 0 (List.length cases)))
     :: xcases cb p 0 cases
-    ++ when_tail p (match els with None => None | Some el => Some (xlist cb (p ^^ "e") 0 el) end).
+    ++ when_tail p (match els with None => None | Some el => Some (xlist cb p 3 0 el) end).
 Proof. reflexivity. Qed.
 
 Lemma xcases_nil cb p i : xcases cb p i [] = [].
 Proof. reflexivity. Qed.
-Lemma xcases_cons cb p i c r :
-  xcases cb p i (c :: r) = when_case p i (xlist cb (casep p i ^^ "b") 0 c) ++ xcases cb p (S i) r.
+Lemma xcases_cons cb p i tr body r :
+  xcases cb p i ((tr, body) :: r) = when_case p i tr (xlist cb (p ++ [4; i]) 5 0 body) ++ xcases cb p (S i) r.
 Proof. reflexivity. Qed.
 
 Definition Pgood (s : stmt) : Prop := forall cb p, good (cbl cb) [] (xstmt cb p s).
 
-Lemma xlist_good ss : Forall Pgood ss -> forall cb p i, good (cbl cb) [] (xlist cb p i ss).
+Lemma xlist_good ss : Forall Pgood ss -> forall cb p t i, good (cbl cb) [] (xlist cb p t i ss).
 Proof.
-  induction 1 as [|s r Hs Hr IH]; intros cb p i; [apply good_nil|].
+  induction 1 as [|s r Hs Hr IH]; intros cb p t i; [apply good_nil|].
   cbn [xlist]. apply good_app; [apply Hs|apply IH].
 Qed.
 
-Lemma when_case_good cb p i body :
-  good (cbl cb) [] body ->
-  good ([p ^^ "D"; p ^^ "E"] ++ cbl cb) [p ^^ "K"] (when_case p i body).
+Lemma case_pre_good L M tr : good L M (case_pre tr).
 Proof.
-  intros Hb. unfold when_case. cbv zeta. set (q := casep p i).
-  apply (good_close [q ^^ "I"; q ^^ "F"; q ^^ "G"; q ^^ "C"] [q ^^ "K"]).
-  - apply good_app; [good_concrete|]. apply good_app; [|good_concrete].
+  unfold case_pre. induction tr as [|m r IH]; [apply good_nil|]. cbn [flat_map].
+  apply good_app; [|exact IH]. destruct m; [apply good_nil|apply start_atom_good|apply start_atom_good].
+Qed.
+
+Lemma when_case_good cb p i tr body :
+  good (cbl cb) [] body ->
+  good ([wn_D p; wn_E p] ++ cbl cb) [wn_K p] (when_case p i tr body).
+Proof.
+  intros Hb. unfold when_case.
+  assert (HP : good ([cs_I p i; cs_F p i; cs_G p i; cs_C p i] ++ [wn_D p; wn_E p] ++ cbl cb)
+                    ([cs_K p i] ++ [wn_K p]) (case_pre tr ++ match_all p 9 i (List.length tr)))
+    by (apply good_app; [apply case_pre_good|apply match_all_good]).
+  revert HP. generalize (case_pre tr ++ match_all p 9 i (List.length tr)) as MID. intros MID HP.
+  apply (good_close [cs_I p i; cs_F p i; cs_G p i; cs_C p i] [cs_K p i]).
+  - apply good_app; [good_concrete|]. apply good_app; [exact HP|].
+    apply good_app; [good_concrete|]. apply good_app; [|good_concrete].
     eapply good_mono; [| |exact Hb].
     + intros x Hx. rewrite !in_app_iff. auto.
     + intros x [].
@@ -229,16 +331,16 @@ Proof.
 Qed.
 
 Lemma xcases_good cb p cs :
-  Forall (Forall Pgood) cs -> forall i, good ([p ^^ "D"; p ^^ "E"] ++ cbl cb) [p ^^ "K"] (xcases cb p i cs).
+  Forall (fun c => Forall Pgood (snd c)) cs -> forall i, good ([wn_D p; wn_E p] ++ cbl cb) [wn_K p] (xcases cb p i cs).
 Proof.
-  induction 1 as [|c r Hc Hr IH]; intros i; [rewrite xcases_nil; apply good_nil|].
+  induction 1 as [|[tr c] r Hc Hr IH]; intros i; [rewrite xcases_nil; apply good_nil|]. cbn [snd] in Hc.
   rewrite xcases_cons. apply good_app; [|apply IH]. apply when_case_good. now apply xlist_good.
 Qed.
 
 Lemma xcases_inits cb p cs : forall i,
-  incl (map (fun j => casep p j ^^ "I") (seq i (List.length cs))) (defs (xcases cb p i cs)).
+  incl (map (cs_I p) (seq i (List.length cs))) (defs (xcases cb p i cs)).
 Proof.
-  induction cs as [|c r IH]; intros i; [intros x []|].
+  induction cs as [|[tr c] r IH]; intros i; [intros x []|].
   rewrite xcases_cons. cbn [List.length seq map]. rewrite defs_app. intros x [<-|Hx].
   - apply in_or_app. left. unfold when_case. cbn. auto.
   - apply in_or_app. right. now apply IH.
@@ -246,11 +348,11 @@ Qed.
 
 Lemma when_tail_good cb p els :
   (forall el, els = Some el -> good (cbl cb) [] el) ->
-  good (cbl cb) [] (when_tail p els) /\ incl [p ^^ "D"; p ^^ "E"] (defs (when_tail p els)).
+  good (cbl cb) [] (when_tail p els) /\ incl [wn_D p; wn_E p] (defs (when_tail p els)).
 Proof.
   intros Hel. unfold when_tail. destruct els as [el|].
   - specialize (Hel el eq_refl). split.
-    + apply (good_close [p ^^ "E"; p ^^ "T"; p ^^ "D"] []).
+    + apply (good_close [wn_E p; wn_T p; wn_D p] []).
       * apply good_app; [good_concrete|]. apply good_app; [|good_concrete].
         apply good_app; [good_concrete|].
         eapply good_mono; [| |exact Hel]; [intros x Hx; rewrite !in_app_iff; auto|intros x []].
@@ -258,7 +360,7 @@ Proof.
       * intros x [].
     + revert Hel. generalize el as B. intros B _. incl_solve.
   - split; [|incl_solve].
-    apply (good_close [p ^^ "E"; p ^^ "D"] []); [|incl_solve|intros x []].
+    apply (good_close [wn_E p; wn_D p] []); [|incl_solve|intros x []].
     apply good_app; [good_concrete|]. apply good_app; good_concrete.
 Qed.
 
@@ -272,43 +374,45 @@ Proof.
   - intros cb p. good_concrete.
   - intros cb p. good_concrete.
   - (* if *) intros th el Hth Hel cb p. rewrite xstmt_if.
-    pose proof (xlist_good th Hth cb (p ^^ "t") 0) as HT. revert HT.
-    generalize (xlist cb (p ^^ "t") 0 th) as TH. intros TH HT.
+    pose proof (xlist_good th Hth cb p 0 0) as HT. revert HT.
+    generalize (xlist cb p 0 0 th) as TH. intros TH HT.
     destruct el as [|e0 el0].
-    + apply (good_close [p ^^ "D"] []); [|incl_solve|intros x []].
+    + apply (good_close [if_D p] []); [|incl_solve|intros x []].
       apply good_cons; [good_concrete|]. apply good_app; [|good_concrete].
       eapply good_mono; [| |exact HT]; [intros x Hx; rewrite !in_app_iff; auto|intros x []].
-    + pose proof (xlist_good (e0 :: el0) Hel cb (p ^^ "e") 0) as HE. revert HE.
-      generalize (xlist cb (p ^^ "e") 0 (e0 :: el0)) as EL. intros EL HE.
-      apply (good_close [p ^^ "E"; p ^^ "D"] []); [|incl_solve|intros x []].
+    + pose proof (xlist_good (e0 :: el0) Hel cb p 1 0) as HE. revert HE.
+      generalize (xlist cb p 1 0 (e0 :: el0)) as EL. intros EL HE.
+      apply (good_close [if_E p; if_D p] []); [|incl_solve|intros x []].
       apply good_cons; [good_concrete|]. apply good_app.
       * eapply good_mono; [| |exact HT]; [intros x Hx; rewrite !in_app_iff; auto|intros x []].
       * apply good_app; [good_concrete|]. apply good_app; [|good_concrete].
         eapply good_mono; [| |exact HE]; [intros x Hx; rewrite !in_app_iff; auto|intros x []].
   - (* while *) intros body Hb cb p. rewrite xstmt_while.
-    pose proof (xlist_good body Hb (Some (p ^^ "B", p ^^ "D")) (p ^^ "b") 0) as HB. revert HB.
-    generalize (xlist (Some (p ^^ "B", p ^^ "D")) (p ^^ "b") 0 body) as BD. intros BD HB.
-    apply (good_close [p ^^ "B"; p ^^ "D"] []); [|incl_solve|intros x []].
+    pose proof (xlist_good body Hb (Some (wh_B p, wh_D p)) p 2 0) as HB. revert HB.
+    generalize (xlist (Some (wh_B p, wh_D p)) p 2 0 body) as BD. intros BD HB.
+    apply (good_close [wh_B p; wh_D p] []); [|incl_solve|intros x []].
     apply good_cons; [good_concrete|]. apply good_cons; [good_concrete|].
     apply good_app; [|good_concrete].
     eapply good_mono; [| |exact HB]; [|intros x []].
     intros x Hx. cbn in Hx. rewrite !in_app_iff. cbn. intuition.
-  - intros n cb p. apply or_group_good.
-  - intros n cb p. apply and_group_good.
+  - intros ks cb p. apply x_match_good.
+  - intros gs cb p. apply x_start_good.
+  - intros gs cb p. apply x_await_good.
+  - intros n cb p. apply x_activate_good.
   - (* when *) intros cases els Hc He cb p. rewrite xstmt_when.
     pose proof (xcases_good cb p cases Hc 0) as HX.
     pose proof (xcases_inits cb p cases 0) as HI.
-    assert (HT : forall el', (match els with None => None | Some el => Some (xlist cb (p ^^ "e") 0 el) end) = Some el' ->
+    assert (HT : forall el', (match els with None => None | Some el => Some (xlist cb p 3 0 el) end) = Some el' ->
                             good (cbl cb) [] el').
     { intros el' H. destruct els as [el|]; [|discriminate]. injection H as <-.
       apply xlist_good. now apply He. }
     destruct (when_tail_good cb p _ HT) as [HTg HTd]. revert HTg HTd.
-    generalize (when_tail p (match els with None => None | Some el => Some (xlist cb (p ^^ "e") 0 el) end)) as TL.
+    generalize (when_tail p (match els with None => None | Some el => Some (xlist cb p 3 0 el) end)) as TL.
     revert HX HI. generalize (xcases cb p 0 cases) as XC.
-    generalize (map (fun i => casep p i ^^ "I") (seq 0 (List.length cases))) as inits.
+    generalize (map (cs_I p) (seq 0 (List.length cases))) as inits.
     intros inits XC HX HI TL HTg HTd.
-    change (EBegin (p ^^ "S") :: EFork (p ^^ "K") inits :: XC ++ TL)
-      with ([EBegin (p ^^ "S"); EFork (p ^^ "K") inits] ++ XC ++ TL).
+    change (EBegin (wn_S p) :: EFork (wn_K p) inits :: XC ++ TL)
+      with ([EBegin (wn_S p); EFork (wn_K p) inits] ++ XC ++ TL).
     apply good_wrap.
     + eapply good_mono; [| |exact HX].
       * intros x Hx. rewrite !in_app_iff in *. destruct Hx as [Hx|Hx]; [|auto].
@@ -381,7 +485,7 @@ Lemma wf_when inl cases els :
   wf_cases inl cases && match els with None => true | Some el => wf_list inl el end.
 Proof. reflexivity. Qed.
 
-Lemma wf_cases_cons inl c r : wf_cases inl (c :: r) = wf_list inl c && wf_cases inl r.
+Lemma wf_cases_cons inl tr c r : wf_cases inl ((tr, c) :: r) = wf_list inl c && wf_cases inl r.
 Proof. reflexivity. Qed.
 
 Lemma lx_app a b : loop_exits_okb (a ++ b) = loop_exits_okb a && loop_exits_okb b.
@@ -391,25 +495,90 @@ Definition Plx (s : stmt) : Prop :=
   forall cb p, wf_loops (is_some cb) s = true -> loop_exits_okb (xstmt cb p s) = true.
 
 Lemma xlist_lx ss : Forall Plx ss ->
-  forall cb p i, wf_list (is_some cb) ss = true -> loop_exits_okb (xlist cb p i ss) = true.
+  forall cb p t i, wf_list (is_some cb) ss = true -> loop_exits_okb (xlist cb p t i ss) = true.
 Proof.
-  induction 1 as [|s r Hs Hr IH]; intros cb p i Hw; [reflexivity|].
+  induction 1 as [|s r Hs Hr IH]; intros cb p t i Hw; [reflexivity|].
   cbn [xlist wf_list] in *. apply andb_true_iff in Hw. destruct Hw as [H1 H2].
-  rewrite lx_app, (Hs cb _ H1), (IH cb p (S i) H2). reflexivity.
+  rewrite lx_app, (Hs cb _ H1), (IH cb p t (S i) H2). reflexivity.
 Qed.
 
-Lemma group_body_lx en gs :
-  loop_exits_okb (flat_map (fun g => [ELabel g; EBlock; EGoto en false]) gs) = true.
-Proof. induction gs as [|g r IH]; [reflexivity|]. cbn [flat_map]. rewrite lx_app, IH. reflexivity. Qed.
+Lemma group_body_lx en gs : loop_exits_okb (group_body en gs) = true.
+Proof. unfold group_body. induction gs as [|g r IH]; [reflexivity|]. cbn [flat_map]. rewrite lx_app, IH. reflexivity. Qed.
 
-Lemma xcases_lx cb p cs : Forall (Forall Plx) cs ->
+Lemma and_group_lx p n : loop_exits_okb (and_group p n) = true.
+Proof. unfold and_group. cbv zeta. rewrite !lx_app, group_body_lx. reflexivity. Qed.
+
+Lemma match_all_lx p tag i k : loop_exits_okb (match_all p tag i k) = true.
+Proof. unfold match_all. destruct (k <=? 1)%nat; [reflexivity|apply and_group_lx]. Qed.
+
+Lemma starts_lx g : loop_exits_okb (starts g) = true.
+Proof.
+  unfold starts. induction g as [|a r IH]; [reflexivity|]. cbn [flat_map].
+  rewrite lx_app, IH. destruct a; reflexivity.
+Qed.
+
+Lemma x_activate_lx n : loop_exits_okb (x_activate n) = true.
+Proof. induction n as [|n IH]; [reflexivity|]. cbn [x_activate]. rewrite lx_app, IH. reflexivity. Qed.
+
+Lemma or_branches_lx sc p bodies : forall i,
+  (forall b, In b bodies -> loop_exits_okb b = true) -> loop_exits_okb (or_branches sc p i bodies) = true.
+Proof.
+  induction bodies as [|b r IH]; intros i Hb; [reflexivity|].
+  cbn [or_branches]. change (ELabel (or_G sc p i) :: b ++ EGoto (or_N sc p) false :: or_branches sc p (S i) r)
+    with ([ELabel (or_G sc p i)] ++ b ++ [EGoto (or_N sc p) false] ++ or_branches sc p (S i) r).
+  rewrite !lx_app, (Hb b (or_introl eq_refl)), IH; [reflexivity|]. intros; apply Hb; now right.
+Qed.
+
+Lemma or_struct_lx sc p bodies :
+  (forall b, In b bodies -> loop_exits_okb b = true) -> loop_exits_okb (or_struct sc p bodies) = true.
+Proof.
+  intros Hb. unfold or_struct. rewrite !lx_app, (or_branches_lx sc p bodies 0 Hb).
+  unfold or_tail. destruct sc; reflexivity.
+Qed.
+
+Lemma x_match_lx p ks : loop_exits_okb (x_match p ks) = true.
+Proof.
+  unfold x_match.
+  assert (H : loop_exits_okb (or_struct false p (mapi_from (fun i k => match_all p 6 i k) 0 ks)) = true).
+  { apply or_struct_lx. intros b Hb. destruct (mapi_from_in _ _ _ _ Hb) as [j [k ->]]. apply match_all_lx. }
+  destruct ks as [|k [|k2 r]]; [exact H|apply match_all_lx|exact H].
+Qed.
+
+Lemma x_start_lx p gs : loop_exits_okb (x_start p gs) = true.
+Proof.
+  unfold x_start.
+  assert (H : loop_exits_okb (or_struct false p (map starts gs)) = true).
+  { apply or_struct_lx. intros b Hb. apply in_map_iff in Hb. destruct Hb as [g [<- _]]. apply starts_lx. }
+  destruct gs as [|g [|g2 r]]; [exact H|apply starts_lx|exact H].
+Qed.
+
+Lemma x_await_lx p gs : loop_exits_okb (x_await p gs) = true.
+Proof.
+  unfold x_await.
+  assert (H : loop_exits_okb (or_struct true p (mapi_from (fun i g => starts g ++ match_all p 7 i (List.length g)) 0 gs)) = true).
+  { apply or_struct_lx. intros b Hb. destruct (mapi_from_in _ _ _ _ Hb) as [j [g ->]].
+    rewrite lx_app, starts_lx, match_all_lx. reflexivity. }
+  destruct gs as [|g [|g2 r]]; [exact H| |exact H].
+  rewrite lx_app, starts_lx, match_all_lx. reflexivity.
+Qed.
+
+Lemma case_pre_lx tr : loop_exits_okb (case_pre tr) = true.
+Proof.
+  unfold case_pre. induction tr as [|m r IH]; [reflexivity|]. cbn [flat_map].
+  rewrite lx_app, IH. destruct m; reflexivity.
+Qed.
+
+Lemma xcases_lx cb p cs : Forall (fun c => Forall Plx (snd c)) cs ->
   forall i, wf_cases (is_some cb) cs = true -> loop_exits_okb (xcases cb p i cs) = true.
 Proof.
-  induction 1 as [|c r Hc Hr IH]; intros i Hw; [reflexivity|].
+  induction 1 as [|[tr c] r Hc Hr IH]; intros i Hw; [reflexivity|]. cbn [snd] in Hc.
   rewrite xcases_cons. rewrite wf_cases_cons in Hw. apply andb_true_iff in Hw. destruct Hw as [H1 H2].
-  rewrite lx_app, (IH (S i) H2), andb_true_r. unfold when_case. cbv zeta.
-  rewrite !lx_app, (xlist_lx c Hc cb _ 0 H1). reflexivity.
+  rewrite lx_app, (IH (S i) H2), andb_true_r. unfold when_case.
+  rewrite !lx_app, (xlist_lx c Hc cb _ 5 0 H1), match_all_lx, case_pre_lx. reflexivity.
 Qed.
+
+Lemma lx_cons e es : loop_exits_okb (e :: es) = loop_exits_okb [e] && loop_exits_okb es.
+Proof. change (e :: es) with ([e] ++ es). apply lx_app. Qed.
 
 Lemma xstmt_lx : forall s, Plx s.
 Proof.
@@ -421,31 +590,22 @@ Proof.
   - reflexivity.
   - reflexivity.
   - intros th el Hth Hel cb p Hw. rewrite wf_if in Hw. apply andb_true_iff in Hw. destruct Hw as [H1 H2].
-    rewrite xstmt_if. pose proof (xlist_lx th Hth cb (p ^^ "t") 0 H1) as HT.
+    rewrite xstmt_if. pose proof (xlist_lx th Hth cb p 0 0 H1) as HT.
     destruct el as [|e0 el0].
-    + cbn [loop_exits_okb forallb]. fold (loop_exits_okb (xlist cb (p ^^ "t") 0 th ++ [ELabel (p ^^ "D")])).
-      rewrite lx_app, HT. reflexivity.
-    + pose proof (xlist_lx (e0 :: el0) Hel cb (p ^^ "e") 0 H2) as HE.
-      cbn [loop_exits_okb forallb].
-      fold (loop_exits_okb (xlist cb (p ^^ "t") 0 th ++ [EGoto (p ^^ "D") false; ELabel (p ^^ "E")]
-                              ++ xlist cb (p ^^ "e") 0 (e0 :: el0) ++ [ELabel (p ^^ "D")])).
-      rewrite !lx_app, HT, HE. reflexivity.
+    + rewrite lx_cons, lx_app, HT. reflexivity.
+    + pose proof (xlist_lx (e0 :: el0) Hel cb p 1 0 H2) as HE.
+      rewrite lx_cons, !lx_app, HT, HE. reflexivity.
   - intros body Hb cb p Hw. rewrite wf_while in Hw. rewrite xstmt_while.
-    pose proof (xlist_lx body Hb (Some (p ^^ "B", p ^^ "D")) (p ^^ "b") 0 Hw) as HB.
-    cbn [loop_exits_okb forallb].
-    fold (loop_exits_okb (xlist (Some (p ^^ "B", p ^^ "D")) (p ^^ "b") 0 body ++ [EGoto (p ^^ "B") false; ELabel (p ^^ "D")])).
-    rewrite lx_app, HB. reflexivity.
-  - intros n cb p _. cbn [xstmt]. unfold or_group. cbv zeta.
-    rewrite !lx_app, group_body_lx. reflexivity.
-  - intros n cb p _. cbn [xstmt]. unfold and_group. cbv zeta.
-    rewrite !lx_app, group_body_lx. reflexivity.
+    pose proof (xlist_lx body Hb (Some (wh_B p, wh_D p)) p 2 0 Hw) as HB.
+    rewrite lx_cons, (lx_cons (EGoto _ _)), lx_app, HB. reflexivity.
+  - intros ks cb p _. apply x_match_lx.
+  - intros gs cb p _. apply x_start_lx.
+  - intros gs cb p _. apply x_await_lx.
+  - intros n cb p _. apply x_activate_lx.
   - intros cases els Hc He cb p Hw. rewrite wf_when in Hw. apply andb_true_iff in Hw. destruct Hw as [H1 H2].
-    rewrite xstmt_when. cbn [loop_exits_okb forallb].
-    match goal with |- context [forallb ?f (xcases ?a ?b ?c ?d ++ ?t)] =>
-      change (forallb f (xcases a b c d ++ t)) with (loop_exits_okb (xcases a b c d ++ t)) end.
-    rewrite lx_app, (xcases_lx cb p cases Hc 0 H1). unfold when_tail.
-    destruct els as [el|].
-    + rewrite !lx_app, (xlist_lx el (He el eq_refl) cb _ 0 H2). reflexivity.
+    rewrite xstmt_when. rewrite lx_cons, (lx_cons (EFork _ _)), lx_app, (xcases_lx cb p cases Hc 0 H1).
+    unfold when_tail. destruct els as [el|].
+    + rewrite !lx_app, (xlist_lx el (He el eq_refl) cb _ 3 0 H2). reflexivity.
     + reflexivity.
 Qed.
 
